@@ -22,7 +22,7 @@ ASSUMPTIONS = dipkit.DIP_STUB_TEXT + ["a division by a term that may be zero for
                                       "numbers compared in the generated logical trees differ by more than 1e-3 relative or are exactly equal; the band families judge ==, !=, <=, >= for values within 0.9e-6 relative (must count as equal) and between 1.2e-6 and 1e-4 relative (must count as different; also for magnitudes between 1e-12 and 1e-7, where differences up to a factor of 1.5 are judged: the tolerance is relative only since fix 06bcf3b)",
                                       "inside the generated symbolic trees no functions occur; the documented functions are covered by the concrete 'functions' list"]
 OUTSIDE = ['comparisons of an int node with a float node (the library refuses them)', 'comparisons between reciprocal dimensions (1 s == 1 Hz is true through the documented reciprocal conversion; not judged)', 'array operands', 'sign folding together with ** inside DIP numerical expressions', 'relative differences between 0.9e-6 and 1.2e-6 (the edge of the tolerance band)', 'strict < and > between quantities that are exactly equal after conversion (binary64 conversion noise decides; no tolerance is documented for them)']
-BOUNDS = {'quick': '150 numerical trees (<= 4 operators), 80 logical trees (<= 4 operators), 24 tolerance-band families (|d| <= 9e-7 inside, 1.2e-6 .. 1e-4 outside), 94 concrete unit ties, 34 template cases', 'thorough': '900 numerical, 500 logical, 120 band families'}
+BOUNDS = {'quick': '150 numerical trees (<= 4 operators), 80 logical trees (<= 4 operators), 24 tolerance-band families (|d| <= 9e-7 inside, 1.2e-6 .. 1e-4 outside), 112 concrete unit ties (literal-vs-literal included), 182 ordered pairs of units of different dimension that must not be added, 32 function cases, 34+ template cases', 'thorough': '900 numerical, 500 logical, 120 band families'}
 EXHAUSTIVE = {'quick': False, 'thorough': False}
 PRE = dipkit.DIP_SRC + unitkit.REF_SRC + '''
 CUSTOM = {'[len]': 0.25}            # $unit len = 25 cm
